@@ -196,14 +196,18 @@ class LBuilt:
     """A GraphLife graph realised with real tensors: node i <-> self.t[i-1]; for op nodes
     ``self.t[i-1].grad_fn`` is the autograd node modelled by i (checked by :meth:`check_shape`)."""
 
-    def __init__(self, graph: list[dict], sizes: list[int] | None = None):
+    def __init__(self, graph: list[dict], sizes: list[int] | None = None, zeros: list | tuple = ()):
+        """``zeros``: leaves whose VALUE is zero (a value presentation: the gradients that flow through a
+        product with them are exactly zero - a saturated / switched-off head; which nodes a sweep executes
+        and frees does not depend on values)."""
         self.graph = graph
         self.t: list[torch.Tensor] = []
+        zeros = set(zeros)
         for i, nd in enumerate(graph, start=1):
             k, c = nd["k"], nd["c"]
             if k == "acc":
                 n = sizes[i - 1] if sizes else int(nd.get("sz", 1) or 1)
-                vals = [float(((i * 7 + j * 3) % 5) + 1) for j in range(n)]
+                vals = [0.0 if i in zeros else float(((i * 7 + j * 3) % 5) + 1) for j in range(n)]
                 x = torch.tensor(vals, dtype=DT) if n > 1 else torch.tensor(vals[0], dtype=DT)
                 x.requires_grad_(True)
                 self.t.append(x)
